@@ -253,6 +253,24 @@ pub fn run(ctx: Arc<Ctx>) {
 	probe.dedup();
 	let fac = pipeline::factory(vec![a.clone(), b.clone(), c.clone()], &work.0);
 	let m = |i: usize| format!("from_container filename=\"mem:{i}\"");
+	// filters whose geographic edges are tile borders, over a source that has every tile of levels 0..3
+	{
+		let full = MemSource::new("full", tilesets::family_full_pyramid(3), TileFormat::BIN, TileCompression::Uncompressed);
+		let fprobe: Vec<Key> = full.tiles.keys().copied().collect();
+		let ffac = pipeline::factory(vec![full], &work.0);
+		for bbox in ["[0,0,90,66.51326044311186]", "[-90,-66.51326044311186,0,40.97989806962013]", "[-180,-40.97989806962013,-45,79.17133464081945]", "[45,-85.0511287798066,135,0]", "[-0.0001,-10,10,10]"] {
+			for tail in ["", " | filter_zoom min=1 max=3", " | filter_bbox bbox=[-135,-79.17133464081945,135,79.17133464081945]"] {
+				let vpl = format!("{} | filter_bbox bbox={bbox}{tail}", m(0));
+				match pipeline::build_op(&rt, &ffac, &vpl) {
+					Ok(op) => {
+						check_pyramid(&ctx, &rt, "pipeline", &vpl, &AnySrc::Op(op), &fprobe, false, json!({"vpl": vpl}));
+						ctx.trace(1);
+					}
+					Err(e) => ctx.violation("pipeline cannot be built", &format!("{vpl}: {e}"), json!({"vpl": vpl})),
+				}
+			}
+		}
+	}
 	// vector-tile operations over sources with different coverages
 	{
 		let raw = crate::mvt::encode_tile(&super::c10::catalogue()[0].1);
